@@ -80,18 +80,39 @@ Proof.
   split; [exact He|]. unfold h_labels. rewrite He. apply collapse_pos_labels.
 Qed.
 
-Theorem beam_ok_sound c : beam_ok c = true ->
+Lemma valid_labels_spec L y : valid_labels L y = true -> valid L y.
+Proof.
+  unfold valid_labels, valid. rewrite forallb_forall, Forall_forall. intros H c Hc.
+  specialize (H c Hc). apply andb_true_iff in H as [H1 H2].
+  apply Nat.leb_le in H1. apply Nat.ltb_lt in H2. lia.
+Qed.
+
+(* the reference the oracle uses (brute force, or the forward recursion on long inputs) is the
+   exact probability *)
+Lemma ref_prob_exact c y : (1 <= c_L c)%nat -> valid (c_L c) y ->
+  ref_prob c (ref_table c) y = exact (c_L c) (c_m c) y.
+Proof.
+  intros HL V. unfold ref_prob, ref_table. destruct (small_case c); [reflexivity|].
+  rewrite alpha_dp_spec. unfold exact. apply alpha_exact; [exact HL|]. apply Forall_rev. exact V.
+Qed.
+
+Theorem beam_ok_sound c : (1 <= c_L c)%nat -> beam_ok c = true ->
   exists hs, c_nbest c = Hyps hs
     /\ NoDup (map h_labels hs)
-    /\ Forall (fun h => sc_finite (h_sc h) = true
-                        /\ sc_le (h_sc h) (exact (c_L c) (c_m c) (h_labels h)) (Dpow c) = true
+    /\ (hs = [] -> c_n c = 0%nat \/ c_k c = 0%nat \/ exists r, In r (c_m c) /\ dead_row (c_L c) r = true)
+    /\ Forall (fun h => valid (c_L c) (h_labels h)
+                        /\ sc_finite (h_sc h) = true
+                        /\ sc_le (h_sc h) (exact (c_L c) (c_m c) (h_labels h)) (Dpow c) (Tn c) = true
                         /\ (unpruned true (c_k c) (c_L c) (c_m c) = true ->
-                            sc_ge (h_sc h) (exact (c_L c) (c_m c) (h_labels h)) (Dpow c) = true)) hs.
+                            sc_ge (h_sc h) (exact (c_L c) (c_m c) (h_labels h)) (Dpow c) (Tn c) = true)) hs.
 Proof.
-  unfold beam_ok. destruct (c_nbest c) as [hs|]; [|discriminate].
-  rewrite !andb_true_iff. intros [[[H1 _] H3] _]. exists hs. split; [reflexivity|].
-  split; [apply nodup_labels_spec; exact H1|].
-  apply Forall_forall. intros h Hh. rewrite forallb_forall in H3. specialize (H3 h Hh).
-  rewrite !andb_true_iff in H3. destruct H3 as [[A B] C].
-  split; [exact A|]. split; [exact B|]. intros U. rewrite U in C. exact C.
+  intros HL. unfold beam_ok. destruct (c_nbest c) as [hs|]; [|discriminate].
+  rewrite !andb_true_iff. intros [[[[H1 _] H2] H3] _]. exists hs. split; [reflexivity|].
+  split; [apply nodup_labels_spec; exact H1|]. split.
+  - intros ->. rewrite !orb_true_iff, !Nat.eqb_eq in H2. destruct H2 as [[A|A]|A]; auto.
+    right; right. apply existsb_exists in A. exact A.
+  - apply Forall_forall. intros h Hh. rewrite forallb_forall in H3. specialize (H3 h Hh).
+    rewrite !andb_true_iff in H3. destruct H3 as [[[V A] B] C].
+    apply valid_labels_spec in V. rewrite (ref_prob_exact c _ HL V) in B, C.
+    split; [exact V|]. split; [exact A|]. split; [exact B|]. intros U. rewrite U in C. exact C.
 Qed.
